@@ -17,7 +17,7 @@ def string_of(m, enc):
     return "".join(chr(m.eval(enc.c[i], True).as_long()) for i in range(min(n, enc.L)))
 
 
-def worker(repo, dump_bin, L, kw, out, timeout_s, part="0/1"):
+def worker(repo, dump_bin, L, kw, out, timeout_s, part="0/1", only=""):
     t0 = time.time()
     res = {"keyword": kw, "L": L, "obligations": [], "encode_s": None}
     try:
@@ -101,9 +101,9 @@ def worker(repo, dump_bin, L, kw, out, timeout_s, part="0/1"):
     res["reachable"] = {"verdict": str(r), "s": round(time.time() - t1, 1), "example": string_of(s.model(), A) if r == sat else None}
     pi, pn = (int(x) for x in part.split("/"))
     res["part"] = part
-    res["planned"] = len([1 for j in range(len(obs)) if j % pn == pi])
+    res["planned"] = len([1 for j in range(len(obs)) if j % pn == pi and (not only or obs[j][0] in only.split(","))])
     for j, (name, cs, negprop) in enumerate(obs):
-        if j % pn != pi:
+        if j % pn != pi or (only and name not in only.split(",")):
             continue
         s = SolverFor("QF_BV")
         s.set("timeout", int(timeout_s * 1000))
@@ -151,6 +151,6 @@ def corpus(repo, dump_bin, L, texts, out):
 
 if __name__ == "__main__":
     if sys.argv[1] == "worker":
-        worker(sys.argv[2], sys.argv[3], int(sys.argv[4]), sys.argv[5], sys.argv[6], float(sys.argv[7]) if len(sys.argv) > 7 else 300, sys.argv[8] if len(sys.argv) > 8 else "0/1")
+        worker(sys.argv[2], sys.argv[3], int(sys.argv[4]), sys.argv[5], sys.argv[6], float(sys.argv[7]) if len(sys.argv) > 7 else 300, sys.argv[8] if len(sys.argv) > 8 else "0/1", sys.argv[9] if len(sys.argv) > 9 else "")
     elif sys.argv[1] == "corpus":
         corpus(sys.argv[2], sys.argv[3], int(sys.argv[4]), json.load(open(sys.argv[5])), sys.argv[6])
